@@ -55,6 +55,10 @@ def gen_program(rng: random.Random, futures=False, crash=True):
                         if r < 0.75 and k < nk:
                             acts.append(["E", rng.randrange(ents), rng.randint(k + 1, nk), rng.choice(sc["nd"]),
                                          rng.random() < 0.15, rng.choice([0, 0, 0, 0, 3])])
+                        elif r < 0.8 and k < nk:
+                            # an event stamped before the current instant (the engine must discard it)
+                            acts.append(["EP", rng.randrange(ents), rng.randint(k + 1, nk), rng.choice([1, 1, 1000, 10**9]),
+                                         rng.random() < 0.15])
                         elif r < 0.9:
                             acts.append(["X", rng.randint(1, nk)])
                         elif crash and r < 0.95:
@@ -63,7 +67,7 @@ def gen_program(rng: random.Random, futures=False, crash=True):
                             acts.append(["U", rng.randrange(ents)])
                     term = ["Z"] if si == nseg - 1 else ["Y", rng.choice(sc["fd"])]
                     segs.append({"acts": acts, "term": term})
-                prog["defs"].append({"ent": e, "kind": k, "gen": gen, "segs": segs})
+                prog["defs"].append({"ent": e, "kind": k, "gen": gen, "segs": segs, "reuse_list": gen and rng.random() < 0.4})
     prog["end"] = None if rng.random() < 0.35 else rng.choice(sc["ends"])
     prog["loop"] = rng.choice(["fast", "slow"])
     prog["times"] = sc["times"]
